@@ -374,6 +374,7 @@ func runCase(c *Case) *Result {
 	}
 
 	res.Runs = make([]RunResult, len(c.Runs))
+	rawData := make([]any, len(c.Runs))
 	doRun := func(i int) {
 		rs := c.Runs[i]
 		var input any
@@ -400,7 +401,7 @@ func runCase(c *Case) *Result {
 		if err != nil {
 			rr.Err, rr.ErrType = err.Error(), errType(err)
 		} else {
-			rr.Data = toJSON(data)
+			rawData[i] = data // serialised after all runs have returned: data shared between runs must not go unnoticed
 			if sch, ok := prepared.OutputSchema()[id]; !ok {
 				rr.Schema = "undeclared output id " + id
 			} else if _, uerr := sch.Unserialize(data); uerr != nil {
@@ -425,6 +426,11 @@ func runCase(c *Case) *Result {
 		}
 		wg.Wait()
 		i = j
+	}
+	for i := range res.Runs {
+		if res.Runs[i].Err == "" && res.Runs[i].ErrType == "" {
+			res.Runs[i].Data = toJSON(rawData[i])
+		}
 	}
 	res.OpenConns = splugin.OpenConns.Load()
 	res.OpenExecs = splugin.OpenExecs.Load()
